@@ -23,18 +23,26 @@ Theorem C12_order_brace : forall toks,
   expand_brace toks = Ok (flat_map (sel_tokens brace_sel) toks).
 Proof. exact expand_brace_in_place. Qed.
 
-(** Ranges: the inclusive arithmetic sequence from a toward b with step max 1 s, in either
-    build mode, provided the operands are i32 and b is at least one step inside the i32 bounds. *)
-Theorem C12_range : forall oc a b s,
-  (i32_min <= a <= i32_max)%Z -> (i32_min <= b <= i32_max)%Z ->
-  (b + Z.max 1 s <= i32_max)%Z -> (i32_min <= b - Z.max 1 s)%Z ->
-  range_list oc a b (Z.max 1 s) = Ok (map z_to_dec (range_ref a b s)).
-Proof. exact range_list_ref. Qed.
+(** Braces, including groups with a single alternative (they keep their braces, as in bash). *)
+Theorem C12_brace_any_group : forall t, wf_term1 t = true -> brace_getitem (render_term t) 0 = Ok (den_term1 t, []).
+Proof. exact brace_getitem_den1. Qed.
 
-(** Tilde: an unquoted token starting with ~ gets the home directory in its place (home
-    without a dollar, token without a newline); quoted tokens and other tokens are unchanged. *)
-Theorem C12_home : forall W rest, ~ In 36 (home W) -> ~ In 10 rest ->
-  expand_home_tok W (TNone, 126 :: rest) = (TNone, home W ++ rest).
+(** Ranges: for ALL i32 operands and every step the loop returns the inclusive arithmetic sequence
+    from a toward b with step max 1 s (it stops at the last value not beyond b, also next to the i32
+    limits); it cannot panic or diverge, and the sequence is never empty. *)
+Theorem C12_range : forall a b s,
+  (i32_min <= a <= i32_max)%Z -> (i32_min <= b <= i32_max)%Z ->
+  range_list a b (Z.max 1 s) = Ok (map z_to_dec (range_ref a b s)).
+Proof. exact range_list_ref. Qed.
+Theorem C12_range_total : forall a b s,
+  (i32_min <= a <= i32_max)%Z -> (i32_min <= b <= i32_max)%Z ->
+  exists l, range_list a b (Z.max 1 s) = Ok l /\ l <> [].
+Proof. exact range_list_total. Qed.
+
+(** Tilde: an unquoted token starting with ~ gets the home directory in its place -- for EVERY home
+    directory (since 1c7eddf it is text: dollars in it stay) and every rest; quoted tokens and other
+    tokens are unchanged. *)
+Theorem C12_home : forall W rest, expand_home_tok W (TNone, 126 :: rest) = (TNone, home W ++ rest).
 Proof. exact expand_home_spec. Qed.
 Theorem C12_home_other : forall W tg s, tg <> TNone \/ strip_prefix [126] s = None ->
   expand_home_tok W (tg, s) = (tg, s).
@@ -55,38 +63,42 @@ Proof. exact expand_glob_in_place. Qed.
 
 (** Full statement for ranges as the property words it (text around the braces is kept): false. *)
 Definition C12_full : Prop :=
-  forall oc pre post a b, (0 <= a <= 9)%Z -> (0 <= b <= 9)%Z ->
-  expand_brace_range oc [(TNone, pre ++ [123] ++ z_to_dec a ++ [46; 46] ++ z_to_dec b ++ [125] ++ post)]
+  forall pre post a b, (0 <= a <= 9)%Z -> (0 <= b <= 9)%Z ->
+  expand_brace_range [(TNone, pre ++ [123] ++ z_to_dec a ++ [46; 46] ++ z_to_dec b ++ [125] ++ post)]
   = Ok (map (fun z => retag (pre ++ z_to_dec z ++ post)) (range_ref a b 1)).
 Theorem C12_refuted : ~ C12_full.
 Proof.
-  intros H. specialize (H true [97] [98] 1%Z 3%Z). vm_compute in H.
+  intros H. specialize (H [97] [98] 1%Z 3%Z). vm_compute in H.
   assert (X : (0 <= 1 <= 9)%Z /\ (0 <= 3 <= 9)%Z) by (split; split; discriminate).
   specialize (H (proj1 X) (proj2 X)). discriminate.
 Qed.
 
 (** The recorded defects, as computed facts about the model. *)
 Theorem C12_refuted_affixes :
-  expand_brace_range true [(TNone, [101; 99; 104; 111]); (TNone, [97; 123; 49; 46; 46; 51; 125; 98])]
+  expand_brace_range [(TNone, [101; 99; 104; 111]); (TNone, [97; 123; 49; 46; 46; 51; 125; 98])]
   = Ok [(TNone, [101; 99; 104; 111]); (TNone, [49]); (TNone, [50]); (TNone, [51])].
 Proof. exact range_drops_affixes. Qed.
-Theorem C12_refuted_overflow :
-  expand_brace_range true [(TNone, [123; 50; 49; 52; 55; 52; 56; 51; 54; 52; 54; 46; 46; 50; 49; 52; 55; 52; 56; 51; 54; 52; 55; 125])]
-  = Panic site_range_overflow.
-Proof. exact range_overflow_panics. Qed.
-Theorem C12_refuted_single_alternative :
-  brace_getitem [123; 97; 125; 123; 98; 44; 99; 125] 0
-  = Ok ([[123; 97; 125; 125; 98]; [123; 97; 125; 125; 99]], []).
+(** Regression examples for the two repaired defects. *)
+Example C12_range_at_limit :
+  expand_brace_range [(TNone, [123; 50; 49; 52; 55; 52; 56; 51; 54; 52; 54; 46; 46; 50; 49; 52; 55; 52; 56; 51; 54; 52; 55; 125])]
+  = Ok [(TNone, [50; 49; 52; 55; 52; 56; 51; 54; 52; 54]); (TNone, [50; 49; 52; 55; 52; 56; 51; 54; 52; 55])].
+Proof. exact range_at_i32_max. Qed.
+Example C12_home_with_dollar :
+  expand_home_tok (mkWorld (fun _ => None) (fun _ => None) 0%Z 1%Z [47; 104; 36; 116; 97; 105; 108] (fun _ => None)
+                           (fun _ => None) (fun _ => None)) (TNone, [126; 47; 120])
+  = (TNone, [47; 104; 36; 116; 97; 105; 108; 47; 120]).
+Proof. exact home_with_dollar. Qed.
+Example C12_single_alternative :
+  brace_getitem [123; 97; 125; 123; 98; 44; 99; 125] 0 = Ok ([[123; 97; 125; 98]; [123; 97; 125; 99]], []).
 Proof. exact single_alternative_group. Qed.
 
 Check C12_brace : forall t, wf_term t = true -> brace_getitem (render_term t) 0 = Ok (den_term t, []).
 Check C12_order : forall (sel : token -> res selr) toks,
   (forall t, In t toks -> exists d, sel t = Ok d /\ d <> Abort) ->
   run_pass sel toks = Ok (flat_map (sel_tokens sel) toks).
-Check C12_range : forall oc a b s,
+Check C12_range : forall a b s,
   (i32_min <= a <= i32_max)%Z -> (i32_min <= b <= i32_max)%Z ->
-  (b + Z.max 1 s <= i32_max)%Z -> (i32_min <= b - Z.max 1 s)%Z ->
-  range_list oc a b (Z.max 1 s) = Ok (map z_to_dec (range_ref a b s)).
+  range_list a b (Z.max 1 s) = Ok (map z_to_dec (range_ref a b s)).
 
 (** Non-vacuity: the term  a{b,{c,}d}{,e}  is well formed and expands to six words in product order;
     {10..3..2} is the descending sequence 10 8 6 4. *)
@@ -98,7 +110,7 @@ Example C12_nonvacuous :
   render_term ex_term = [97; 123; 98; 44; 123; 99; 44; 125; 100; 125; 123; 44; 101; 125] /\
   brace_getitem (render_term ex_term) 0
   = Ok ([[97; 98]; [97; 98; 101]; [97; 99; 100]; [97; 99; 100; 101]; [97; 100]; [97; 100; 101]], []) /\
-  range_list true 10 3 (Z.max 1 2) = Ok [[49; 48]; [56]; [54]; [52]] /\ range_ref 10 3 2 = [10; 8; 6; 4]%Z.
+  range_list 10 3 (Z.max 1 2) = Ok [[49; 48]; [56]; [54]; [52]] /\ range_ref 10 3 2 = [10; 8; 6; 4]%Z.
 Proof. vm_compute. repeat split. Qed.
 
 Print Assumptions C12_brace.
@@ -111,5 +123,5 @@ Print Assumptions C12_glob.
 Print Assumptions C12_glob_order.
 Print Assumptions C12_refuted.
 Print Assumptions C12_refuted_affixes.
-Print Assumptions C12_refuted_overflow.
-Print Assumptions C12_refuted_single_alternative.
+Print Assumptions C12_brace_any_group.
+Print Assumptions C12_range_total.
